@@ -107,6 +107,20 @@ def random_chain(rng):
     return out
 
 
+def random_hypervalent(rng):
+    """two or three hypervalent groups (sulfonyl, phosphoryl; S(IV) is outside the statement) joined by saturated / unsaturated linkers with
+    saturated or unsaturated end groups: several atoms with an odd number of unsaturated neighbours in one molecule
+    (more pairs wanted than a matching can hold), next to atoms that keep unsaturation after the first pairing round"""
+    G = ["S(=O)(=O)", "S(=O)(=O)", "P(=O)(C)", "P(=O)(O)"]
+    LINK = ["C#C", "C=C", "C", "CC", "c1ccc(cc1)", "N", "O", "C(=O)", "C=CC=C"]
+    HEAD = ["C", "N#C", "O=C=N", "O", "C=C", "F", "N", "c1ccccc1", "C#C"]
+    TAIL = ["C", "C#N", "N=C=O", "O", "C=C", "F", "N", "c1ccccc1", "C#C"]
+    out = rng.choice(HEAD) + rng.choice(G)
+    for _ in range(rng.randint(1, 2)):
+        out += rng.choice(LINK) + rng.choice(G)
+    return out + rng.choice(TAIL)
+
+
 def random_ring(rng):
     """random (hetero)aromatic 5- or 6-ring with 0-2 substituents / fused benzene; validity is decided by RDKit"""
     if rng.random() < 0.5:
@@ -140,6 +154,9 @@ def gen_cases(ctx):
             if smi:
                 yield {"kind": "chemical", "smiles": smi, "oseed": rng.randrange(1 << 30), "n_orders": 6 if ctx.tier == "quick" else 16, "source": "random-molecule"}
                 continue
+        if k == 4 and (i // 6) % 6 == 2:
+            yield {"kind": "chemical", "smiles": random_hypervalent(rng), "oseed": rng.randrange(1 << 30), "n_orders": 8 if ctx.tier == "quick" else 24, "source": "random-hypervalent"}
+            continue
         if k == 4:
             smi = random_chain(rng) if (i // 6) % 2 == 0 else random_ring(rng)
             if smi:
@@ -154,9 +171,9 @@ def gen_cases(ctx):
             pairs = [[a, b] for a in range(na) for b in range(a + 1, na) if rng.random() < dens]
             yield {"kind": "structural", "elements": els, "pairs": pairs, "acf": rng.random() < 0.4, "charge": rng.choice([0, 0, 0, 1, -1])}
         elif k < 5:
-            yield {"kind": "chemical", "smiles": MOLECULES[(i // 6 * 2 + (k - 3)) % len(MOLECULES)], "oseed": rng.randrange(1 << 30), "n_orders": 6 if ctx.tier == "quick" else 16}
+            yield {"kind": "chemical", "smiles": MOLECULES[((i // 6 * 2 + (k - 3)) * ctx.nshards + ctx.shard) % len(MOLECULES)], "oseed": rng.randrange(1 << 30), "n_orders": 6 if ctx.tier == "quick" else 16}
         else:
-            yield {"kind": "rdkit", "smiles": MOLECULES[(i // 6) % len(MOLECULES)], "oseed": rng.randrange(1 << 30)}
+            yield {"kind": "rdkit", "smiles": MOLECULES[((i // 6) * ctx.nshards + ctx.shard) % len(MOLECULES)], "oseed": rng.randrange(1 << 30)}
 
 
 def check_case(ctx, case):
